@@ -5,7 +5,7 @@
         -> answers joined by " ; " :  BUILD ok|EValue|ERuntime|EAssert|EKey ; IX=<res> RULE=<res> ; <json index dump>
            res = OK <hid> k=v&k=v | 404 | 405 m|m | BROKEN
    TMPL <template> { ; M <path> | ; F k v k v ... }*  -> ERR | OK <formatter> <index key> ; NONE | k=v&... ; NONE | <url>
-   QUOTE <s> -> <quote|ERR> <requote|ERR> <unquote_path_safe>
+   QUOTE <s> -> <quote|ERR> <requote|ERR> <unquote_path_safe> <path_safe>
    NORM <s> -> normpath     ANC <s> -> ancestors joined by |
    MW <append 0/1> <remove 0/1> <merge 0/1> <path> <dec_slash 0/1> -> candidates joined by | *)
 let s_of = csv_of_ns
@@ -70,7 +70,7 @@ let handle line =
   | [["QUOTE"; s]] ->
     let v = ns_of_csv s in
     (match quote_path v with None -> "ERR" | Some q -> s_of q) ^ " " ^
-    (match requote_path v with None -> "ERR" | Some q -> s_of q) ^ " " ^ s_of (unquote_path_safe v)
+    (match requote_path v with None -> "ERR" | Some q -> s_of q) ^ " " ^ s_of (unquote_path_safe v) ^ " " ^ s_of (path_safe_dec v)
   | [["NORM"; s]] -> s_of (normpath (ns_of_csv s))
   | [["ANC"; s]] -> join_bar (ancestors (ns_of_csv s))
   | [["MW"; a; r; m; p; d]] -> join_bar (redirect_candidates (b01 a) (b01 r) (b01 m) (ns_of_csv p) (b01 d))
